@@ -5,7 +5,7 @@ from hypothesis import strategies as st
 
 from .. import gen
 from ..ref import der as R
-from ..runner import run_hypothesis, exc_sig
+from ..runner import run_hypothesis, exc_sig, srepr
 
 from ecdsa import der as D
 
@@ -200,21 +200,21 @@ def judge(ctx, rname, data, enum=False, as_view=False):
     if got[0] == "exc":
         cls = "empty" if not data else ("short" if len(data) < 3 else "other")
         ctx.fail("%s/exception/%s/%s" % (rname, type(got[1]).__name__, cls), case,
-                 "%r (reference: %s)" % (got[1], want[:2]))
+                 "%s (reference: %s)" % (srepr(got[1]), srepr(want[:2])))
         return
     if want[0] == "unjudged":
         return
     if want[0] == "bad":
         if got[0] == "ok":
             ctx.fail("%s/accepted-non-canonical/%s" % (rname, want[1].replace(" ", "-")), case,
-                     "library returned %r, reference rejects: %s" % (got[1:], want[1]))
+                     "library returned %s, reference rejects: %s" % (srepr(got[1:]), srepr(want[1])))
         return
     # reference accepts
     if got[0] == "bad":
-        ctx.fail("%s/rejected-canonical" % rname, case, "reference value %r" % (want[1],))
+        ctx.fail("%s/rejected-canonical" % rname, case, "reference value %s" % (srepr(want[1]),))
         return
     if got[1] != _norm(want[1]) or got[2] != want[2]:
-        ctx.fail("%s/wrong-value" % rname, case, "library %r reference %r" % (got[1:], want[1:]))
+        ctx.fail("%s/wrong-value" % rname, case, "library %s reference %s" % (srepr(got[1:]), srepr(want[1:])))
         return
     if reenc is not None:
         if reenc(got[1]) + got[2] != data:
